@@ -22,18 +22,25 @@ ASSUME = ['importlib / sys.modules are modelled as a deterministic environment; 
           'the fresh-interpreter oracle is sampled (one subprocess per sampled step)']
 RULE = ('cases = histories of 2..30 decodes in ONE process mixing well-formed, damaged, filtered PELs, all creators / components, fixture parser '
         'modules of every behaviour (echo, raise, raise ImportError, return None, a callout module that raises for one procedure), plugins '
-        'toggled between steps; every step is compared with the stateless model, a sample with a fresh interpreter; the module caches are '
+        'toggled between steps, a message registry whose messages are filled from the hex words (every history has two PELs with the same reason '
+        'code and different words, and an entry that rejects the PEL); every step is compared with the stateless model, a sample with a fresh interpreter; the module caches are '
         'inspected after every step; plus -a vs per-file -f and -a vs -a -r; non-trivial = a step preceded by a failing or plugin-raising '
         'decode; distinct by (history prefix, bytes)')
 UD_FIX = {'x1111': ('echo',), 'x2222': ('raises', 'boom'), 'x3333': ('none',), 'x7777': ('raises_import', 'No module named frobnicate'), 'o1234': ('echo',)}
 SRC_FIX = {'xsrc': ('echo',), 'o8d00': ('echo',), 'oab00': ('raises',)}
 CO_FIX = {'x': ('table_raise', {'PROC0001': ['line one'], 'PROC0002': ['second']}, 'PROCBAD!')}
+# message registry: the message of an SRC is built from that SRC's own hex words (two PELs with the same reason code and
+# different words must not see each other's words); the third entry has too few argument sources and rejects the PEL
+REG_FIX = [{'SRC': {'ReasonCode': '0x8D34', 'Words6To9': {'6': {'Description': 'first word', 'AdditionalDataPropSource': 'W6'}}},
+            'Documentation': {'Message': 'code %1 and %2', 'MessageArgSources': ['SRCWord6', 'SRCWord9']}},
+           {'SRC': {'ReasonCode': '0xAB34', 'Type': 'BC'}, 'Documentation': {'Message': 'hostboot %1', 'MessageArgSources': ['SRCWord7']}},
+           {'SRC': {'ReasonCode': '0x7734', 'Type': 'BD'}, 'Documentation': {'Message': 'too few %1 %2', 'MessageArgSources': ['SRCWord8']}}]
 
 FRESH = r'''
 import sys, json
 sys.path.insert(0, %(harness)r)
 import apel
-env = apel.PluginEnv(allow=True, ud=%(ud)r, src=%(src)r, callout=%(co)r).install()
+env = apel.PluginEnv(allow=True, ud=%(ud)r, src=%(src)r, callout=%(co)r, registry=%(reg)r).install()
 try:
     r = apel.real_decode(bytes.fromhex(sys.argv[1]), allow_plugins=bool(int(sys.argv[2])))
     print(json.dumps(r[:3]))
@@ -74,6 +81,22 @@ def gen_step(rng):
     return data, cfg, rng.random() < 0.85
 
 
+def reg_pair(rng):
+    """two well-formed PELs whose SRCs have the same reason code (a registry entry with MessageArgSources) and different hex words"""
+    out = []
+    ascii_ = rng.choice([b'BD128D34', b'BC12AB34']).ljust(32, b' ')
+    for _ in range(2):
+        p = apel.gen_pel(rng, max_sections=0)
+        p['ph']['creator'] = ord(rng.choice('xOB'))
+        x = apel.gen_src(rng)
+        x['ascii'] = ascii_
+        x['words'] = [rng.randrange(2 ** 32) for _ in range(8)]
+        p['sections'] = [{'kind': 'src', 'hdr': apel.gen_hdr(rng), 'primary': True, 'src': x}]
+        apel.fix_real_plugins(p)
+        out.append((apel.enc_pel(p), {'every': 1}, rng.random() < 0.85))
+    return out
+
+
 def cache_coherent(env_fix):
     from pel.peltool import parse_user_data, src
     bad = []
@@ -102,15 +125,17 @@ def run(tier, seed):
         return ck.finish(RULE, TRUSTED, ASSUME)
     rng = ck.rng
     thorough = tier == 'thorough'
-    fresh_src = FRESH % {'harness': os.path.dirname(os.path.abspath(__file__)), 'ud': UD_FIX, 'src': SRC_FIX, 'co': CO_FIX}
+    fresh_src = FRESH % {'harness': os.path.dirname(os.path.abspath(__file__)), 'ud': UD_FIX, 'src': SRC_FIX, 'co': CO_FIX, 'reg': REG_FIX}
     tmp = tempfile.mkdtemp(prefix='c19_')
     fresh_py = os.path.join(tmp, 'fresh.py')
     open(fresh_py, 'w').write(fresh_src)
-    env_on = apel.PluginEnv(allow=True, ud=UD_FIX, src=SRC_FIX, callout=CO_FIX)
-    env_off = apel.PluginEnv(allow=False, ud=UD_FIX, src=SRC_FIX, callout=CO_FIX)
+    env_on = apel.PluginEnv(allow=True, ud=UD_FIX, src=SRC_FIX, callout=CO_FIX, registry=REG_FIX)
+    env_off = apel.PluginEnv(allow=False, ud=UD_FIX, src=SRC_FIX, callout=CO_FIX, registry=REG_FIX)
     try:
         for hnum in range(30 if thorough else 8):
             steps = [gen_step(rng) for _ in range(rng.choice([2, 5, 12, 30]))]
+            for st in reg_pair(rng):   # same reason code, different hex words, somewhere in the history
+                steps.insert(rng.randrange(len(steps) + 1), st)
             if rng.random() < 0.5:   # repeat an earlier input later in the history
                 steps.append(steps[0])
                 steps.insert(rng.randrange(len(steps)), steps[-2])
@@ -128,6 +153,8 @@ def run(tier, seed):
                     model = apel.dec_outcome(replies[i])
                     ck.case(key=(hnum, i, data) if bad_before else None, sample={'history': hnum, 'step': i, 'outcome': real[0], 'plugins': allow} if i < 2 else None)
                     ck.count('step outcome %s' % real[0])
+                    if real[0] == 'doc' and '"Error Details"' in real[4]:
+                        ck.count('steps showing a registry message built from the hex words')
                     rp = {'op': 'history', 'history': [(d.hex(), c, a) for d, c, a in steps[:i + 1]], 'step': i}
                     if model[0] != 'unsupported':
                         same = model[0] == real[0] and (model[0] != 'doc' or (model[1], model[2]) == (real[1], real[2]))
